@@ -2,6 +2,7 @@ import Bardic.Extracted.UndoCap
 import Bardic.Extracted.EntryPoints
 import Bardic.Extracted.ErrorSites
 import Bardic.Extracted.TokenKinds
+import Bardic.Extracted.StoryWrites
 import Bardic.Engine.Api
 /-!
 # Theorems over tables re-extracted from /repo's source on every run
@@ -20,6 +21,12 @@ theorem entryPoints_resolve_includes :
       !e.2.contains "compile_string" && !e.2.contains "parse" &&
       (e.2.contains "compile_file" || e.2.contains "parse_file" || e.2.contains "create_browser_bundle")) = true ∧
     Extracted.entryPoints.length = 4 := by decide
+
+/-- **no statement of either engine writes through an alias into the compiled story** (subscript /
+attribute assignment, `del`, augmented assignment or a mutating method on a name that aliases
+`self.story` / `self.passages` / a passage, choice or token taken from them) — re-extracted from the
+source and re-checked on every run -/
+theorem storyWrites_none : Extracted.storyWrites = [] := by decide
 
 /-- the documented token kinds (C12) -/
 def documentedKinds : List String :=
